@@ -53,6 +53,9 @@ type Tracker struct {
 	AcceptGate func()
 	// Wrap, when non-nil, wraps every (tracked) connection before it is handed to the library.
 	Wrap func(net.Conn) net.Conn
+	// HoldDial, when non-nil, is called with the library's dial context before the dial is made; it may block (a
+	// black-holed SYN: nothing comes back until the context ends). A non-nil error fails the dial with it.
+	HoldDial func(ctx context.Context, attempt int) error
 
 	listens atomic.Int64
 }
@@ -70,6 +73,13 @@ type DialEvent struct {
 func (t *Tracker) SetFailDial(f func(attempt int) error) {
 	t.mu.Lock()
 	t.FailDial = f
+	t.mu.Unlock()
+}
+
+// SetHoldDial installs (or with nil removes) the dial hold.
+func (t *Tracker) SetHoldDial(f func(ctx context.Context, attempt int) error) {
+	t.mu.Lock()
+	t.HoldDial = f
 	t.mu.Unlock()
 }
 
@@ -111,7 +121,7 @@ func (t *Tracker) DialFunc(ctx context.Context, network, address string) (net.Co
 	t.mu.Lock()
 	n := len(t.dials)
 	t.dials = append(t.dials, DialEvent{Attempt: n, Start: Now(), Target: address})
-	fail, delay := t.FailDial, t.DialDelay
+	fail, delay, hold := t.FailDial, t.DialDelay, t.HoldDial
 	t.mu.Unlock()
 	finish := func(err error) {
 		t.mu.Lock()
@@ -123,6 +133,12 @@ func (t *Tracker) DialFunc(ctx context.Context, network, address string) (net.Co
 	}
 	if fail != nil {
 		if err := fail(n); err != nil {
+			finish(err)
+			return nil, err
+		}
+	}
+	if hold != nil {
+		if err := hold(ctx, n); err != nil {
 			finish(err)
 			return nil, err
 		}
